@@ -13,6 +13,12 @@ class Poisoned(Exception):
     pass
 
 
+def _keystr(k):
+    import numpy as np
+    a = np.asarray(k).reshape(-1)
+    return "key" + "_".join(str(int(x)) for x in a)
+
+
 def _check(xs):
     if any(str(x) == POISON for x in xs):
         raise Poisoned("poisoned argument")
@@ -28,7 +34,7 @@ class Term(str):
         return Term(f"{str(self)}+{other}")
 
 
-def gen_plan(rng, nmax=8):
+def gen_plan(rng, nmax=8, seeded_ok=False):
     """Random DAG in topological order.  Node kinds in the plan:
     v  value, c Calc, t TransientCalc, p proxy (VarValue of a Var), d Dist, e TransientDist.
     A Var with a strong value contributes a 'v' node immediately followed by its 'p' node;
@@ -37,7 +43,7 @@ def gen_plan(rng, nmax=8):
     plan = []  # list of dicts: kind, inp (1-based ids), var (bool: this v/c is wrapped by a Var)
 
     def usable():  # nodes other nodes may take as inputs (a Var-wrapped node is referenced via its proxy)
-        return [i + 1 for i, p in enumerate(plan) if not p.get("wrapped")]
+        return [i + 1 for i, p in enumerate(plan) if not p.get("wrapped") and not p.get("seed_for")]
 
     while len(plan) < n:
         u = usable()
@@ -58,7 +64,11 @@ def gen_plan(rng, nmax=8):
                 ins = sorted(ins)
                 if not _sim_acyclic(plan + [{"kind": kind, "inp": ins}]):
                     continue
-            if kind == "c" and rng.random() < 0.3 and len(plan) + 2 <= n:
+            if kind == "c" and seeded_ok and rng.random() < 0.2 and len(plan) + 2 <= n:
+                # a calculator that needs a seed: the model adds a seed value node as its (keyword) input
+                plan.append({"kind": "v", "inp": [], "seed_for": len(plan) + 2})
+                plan.append({"kind": "c", "inp": ins + [len(plan)], "seeded": True})
+            elif kind == "c" and rng.random() < 0.3 and len(plan) + 2 <= n:
                 plan.append({"kind": "c", "inp": ins, "wrapped": True})
                 plan.append({"kind": "p", "inp": [len(plan)]})
             else:
@@ -84,6 +94,11 @@ SPEC_KIND = {"v": "v", "c": "c", "t": "t", "p": "p", "d": "c", "e": "t"}
 
 
 class GraphRun:
+    def _name(self, i):
+        """Model node name of plan node i (the seed value node of a seeded calculator is created by the model)."""
+        p = self.plan[i - 1]
+        return f"_model_n{p['seed_for']}_seed" if p.get("seed_for") else f"n{i}"
+
     def __init__(self, plan, atoms=("a0", "b0")):
         self.plan = plan
         self.n = len(plan)
@@ -93,6 +108,8 @@ class GraphRun:
         init = {}
         for i, p in enumerate(plan, start=1):
             name = f"n{i}"
+            if p.get("seed_for"):
+                continue          # created by the model for the seeded calculator that follows
             if p["kind"] == "v":
                 init[i] = Term(atoms[i % len(atoms)])
                 if p.get("wrapped"):
@@ -111,10 +128,10 @@ class GraphRun:
                 var.var_value_node.name = name
                 self.nodes[i] = var.var_value_node
             else:
-                ins = [self.nodes[j] for j in p["inp"]]
-                fn = self._fn(i, p["kind"])
+                ins = [self.nodes[j] for j in p["inp"] if not self.plan[j - 1].get("seed_for")]
+                fn = self._fn(i, p["kind"], seeded=bool(p.get("seeded")))
                 if p["kind"] == "c":
-                    self.nodes[i] = lsl.Calc(fn, *ins, _name=name, update_on_init=False)
+                    self.nodes[i] = lsl.Calc(fn, *ins, _name=name, update_on_init=False, _needs_seed=bool(p.get("seeded")))
                 elif p["kind"] == "t":
                     self.nodes[i] = lsl.TransientCalc(fn, *ins, _name=name, update_on_init=False)
                 else:
@@ -128,12 +145,13 @@ class GraphRun:
         self.calls.clear()
         self.slots = []
 
-    def _fn(self, i, kind):
-        def fn(*xs):
+    def _fn(self, i, kind, seeded=False):
+        def fn(*xs, seed=None):
             _check(xs)
             if kind == "c":
                 self.calls.append(i)
-            return Term(f"f{i}(" + ",".join(str(x) for x in xs) + ")")
+            args = [str(x) for x in xs] + ([_keystr(seed)] if seeded else [])
+            return Term(f"f{i}(" + ",".join(args) + ")")
         return fn
 
     def _dist(self, i, kind):
@@ -156,11 +174,12 @@ class GraphRun:
 
         def read(i):
             try:
-                return str(self.model.nodes[f"n{i}"].value)
+                v = self.model.nodes[self._name(i)].value
+                return _keystr(v) if self.plan[i - 1].get("seed_for") else str(v)
             except Exception:  # noqa: BLE001  (a transient node over a poisoned input raises when read)
                 return "ERR"
         val = [read(i) for i in range(1, self.n + 1)]
-        outd = [bool(self.model.nodes[f"n{i}"].outdated) for i in range(1, self.n + 1)]
+        outd = [bool(self.model.nodes[self._name(i)].outdated) for i in range(1, self.n + 1)]
         self.calls.clear()
         return {"val": val, "outd": outd, "evald": calls}
 
@@ -172,13 +191,14 @@ class GraphRun:
         plans whose distribution nodes are free-standing: log_lik / log_prior then have no inputs)."""
         snap = self.snapshot()
         init = [v if SPEC_KIND[p["kind"]] not in ("t", "p") else "-" for v, p in zip(snap["val"], self.plan)]
+        self.has_seeded = any(p.get("seeded") for p in self.plan)
         hdr = {"n": self.n, "kind": [SPEC_KIND[p["kind"]] for p in self.plan],
                "inp": [p["inp"] for p in self.plan], "init": init,
-               "plan_kinds": [p["kind"] for p in self.plan]}
+               "plan_kinds": [p["kind"] for p in self.plan], "plan_full": self.plan}
         self.hidden = hidden
         if hidden:
             dists = [i for i, p in enumerate(self.plan, start=1) if p["kind"] in ("d", "e")]
-            ids = {f"n{i}": i for i in range(1, self.n + 1)}
+            ids = {self._name(i): i for i in range(1, self.n + 1)}
             ids.update({nm: self.n + 1 + k for k, nm in enumerate(self.HIDDEN)})
             assert all(not self.model.nodes[h].inputs for h in self.HIDDEN[:2])
             hdr.update({"n": self.n + 3, "nobs": self.n, "kind": hdr["kind"] + ["c", "c", "c"],
@@ -190,6 +210,11 @@ class GraphRun:
     # ---- operations ------------------------------------------------------------------
     def op(self, o):
         m = self.model
+        if o["ev"] == "rebuild" and any(str(m.nodes[self._name(i)].value) == POISON
+                                        for i, p in enumerate(self.plan, start=1) if p["kind"] == "v"):
+            # a poisoned value is around (e.g. restored from a saved state): building a model would fail half-way and
+            # leave no model to go on with - do a plain full update instead
+            o = {"ev": "update_all"}
         ev = dict(o)
         ev["raised"] = False
         try:
@@ -198,19 +223,24 @@ class GraphRun:
                 if i in self.vars and o.get("via_var"):
                     self.vars[i].value = Term(o["x"])
                 else:
-                    m.nodes[f"n{i}"].value = Term(o["x"])
+                    m.nodes[self._name(i)].value = Term(o["x"])
             elif o["ev"] == "set_auto":
                 m.auto_update = o["b"]
             elif o["ev"] == "update_all":
                 m.update()
             elif o["ev"] == "update_targets":
-                m.update(*[f"n{i}" for i in o["targets"]])
+                m.update(*[self._name(i) for i in o["targets"]])
             elif o["ev"] == "save":
                 self.slots.append(m.state)
             elif o["ev"] == "restore":
                 m.state = self.slots[o["slot"] - 1]
             elif o["ev"] == "rebuild":
                 return self.rebuild(o["n"], o["x"])
+            elif o["ev"] == "set_seed":
+                import jax
+                m.set_seed(jax.random.PRNGKey(o["seed"]))
+                ids = {self._name(i): i for i in range(1, self.n + 1)}
+                ev["assigned"] = [[ids[nd.name], _keystr(nd.value)] for nd in m._seed_nodes]
         except Exception as ex:  # noqa: BLE001  (a node function raised: the operation is aborted where it stands)
             if not isinstance(ex, Poisoned) and not isinstance(ex.__cause__, Poisoned):
                 raise
@@ -232,7 +262,7 @@ def _rebuild(self, n, x):
     ev = {"ev": "rebuild", "n": n, "x": x, "raised": False}
     ev.update(self.snapshot())
     ev["evald"] = sorted(set(ev["evald"]))
-    ids = {f"n{i}": i for i in range(1, self.n + 1)}
+    ids = {self._name(i): i for i in range(1, self.n + 1)}
     ids.update({nm: self.n + 1 + k for k, nm in enumerate(self.HIDDEN)})
     ev["order_all"] = [ids[nd.name] for nd in self.model._sorted_nodes if nd.name in ids]
     if getattr(self, "hidden", False):
@@ -245,7 +275,8 @@ GraphRun._configure_builder = lambda self, gb: None
 
 
 def gen_ops(rng, plan, nops, atoms=("a", "b", "c")):
-    vals = [i + 1 for i, p in enumerate(plan) if p["kind"] == "v"]
+    vals = [i + 1 for i, p in enumerate(plan) if p["kind"] == "v" and not p.get("seed_for")]
+    seeded = any(p.get("seeded") for p in plan)      # (a rebuild would reset the model's seed nodes: not combined)
     nslots = 0
     ops = []
     while len(ops) < nops:
@@ -274,9 +305,11 @@ def gen_ops(rng, plan, nops, atoms=("a", "b", "c")):
                     {"ev": "update_all"},
                     {"ev": "assign", "n": i, "x": rng.choice(atoms) + str(rng.randint(0, 2)), "via_var": False},
                     {"ev": "update_all"}]
+        elif r < 0.26 and seeded:
+            # Model.set_seed: new keys for all seed nodes (with auto-update on or off)
+            ops.append({"ev": "set_seed", "seed": rng.randint(1, 10**6)})
         elif r < 0.26 and vals:
             # (only when no poisoned value is around: a build whose node function raises fails)
-            ops += [{"ev": "update_all"}] if False else []
             ops.append({"ev": "rebuild", "n": rng.choice(vals), "x": rng.choice(atoms) + str(rng.randint(6, 8))})
         elif r < 0.45:
             i = rng.choice(vals)
@@ -298,7 +331,7 @@ def gen_ops(rng, plan, nops, atoms=("a", "b", "c")):
 
 
 def random_trace(rng, nmax=8, maxops=30):
-    plan = gen_plan(rng, nmax)
+    plan = gen_plan(rng, nmax, seeded_ok=True)
     run = GraphRun(plan)
     hdr = run.header(hidden=True)
     ops = gen_ops(rng, plan, rng.randint(5, maxops))
@@ -308,6 +341,12 @@ def random_trace(rng, nmax=8, maxops=30):
 
 
 def replay_trace(hdr):
+    if "plan_full" in hdr:
+        plan = [dict(p) for p in hdr["plan_full"]]
+        run = GraphRun(plan)
+        h = run.header(hidden=True)
+        h["ops"] = hdr["ops"]
+        return {"hdr": h, "ev": [run.op(o) for o in hdr["ops"]]}
     plan = [{"kind": k, "inp": i} for k, i in zip(hdr["plan_kinds"], hdr["inp"])]
     for idx, p in enumerate(plan):
         if idx + 1 < len(plan) and plan[idx + 1]["kind"] == "p" and plan[idx + 1]["inp"] == [idx + 1]:
